@@ -225,6 +225,56 @@ def open_shim(path: Any, mode: str = "r", *a: Any, **k: Any) -> Any:
     return FS.open(path, mode, buffering)
 
 
+# ---------------------------------------------------------------- numpy entropy
+import numpy as _np  # noqa: E402
+
+
+class SimRandomState(_np.random.RandomState):
+    """RandomState whose *unseeded* (re)seeding draws from the simulated process's seeded
+    stream instead of OS entropy; survives copy/pickle as this class."""
+
+    def seed(self, seed: Any = None) -> None:
+        if seed is None and SIM is not None:
+            seed = _entropy32()
+        super().seed(seed)
+
+    def __reduce__(self) -> Any:
+        return (_rebuild_random_state, (self.get_state(legacy=False),))
+
+
+def _rebuild_random_state(state: Any) -> "SimRandomState":
+    r = SimRandomState(0)
+    r.set_state(state)
+    return r
+
+
+class _NumpyRandomShim:
+    """`np.random` as seen by the modules that create *unseeded* generators
+    (LazyRandomState, reseed_rng): OS entropy is the one source of randomness that would
+    otherwise stay outside the simulation."""
+
+    def RandomState(self, seed: Any = None) -> Any:  # noqa: N802
+        if seed is None and SIM is not None:
+            seed = _entropy32()
+        return SimRandomState(seed)
+
+    def __getattr__(self, name: str) -> Any:
+        return getattr(_np.random, name)
+
+
+class _NumpyShim:
+    def __init__(self) -> None:
+        self.random = _NumpyRandomShim()
+
+    def __getattr__(self, name: str) -> Any:
+        return getattr(_np, name)
+
+
+def _entropy32() -> int:
+    SIM.count("entropy_request")
+    return SIM.current_proc().uuid4().int & 0xFFFFFFFF
+
+
 # ---------------------------------------------------------------- install
 _installed = False
 
@@ -291,6 +341,10 @@ def install() -> None:
 
     _heartbeat.Thread = _SimThreadFactory
     _heartbeat.Event = _SimEventFactory
+
+    from optuna.samplers import _lazy_random_state
+
+    _lazy_random_state.np = _NumpyShim()
 
     _optimize.datetime = datetime_module_shim
     _optimize.ThreadPoolExecutor = executor_shim
